@@ -20,7 +20,8 @@ QUERY = ("check-sat", "get-unsat-core", "get-model", "get-value", "get-assignmen
 
 class State:
     """Snapshot at a query command."""
-    __slots__ = ("kind", "idx", "cmd", "frames", "opts", "popped_names", "popped_terms", "frame_ids", "unsat_frames_gone", "sig")
+    __slots__ = ("kind", "idx", "cmd", "frames", "opts", "popped_names", "popped_terms", "frame_ids", "unsat_frames_gone", "sig",
+                 "popped_named", "history")
 
 
 def nested_names(t, top=True, out=None):
@@ -47,6 +48,8 @@ def interpret(text):
     frames = [dict(id=0, items=[])]
     nid = [0]
     popped_names, popped_terms = set(), []
+    popped_named = {}          # name -> body of the (latest) popped assertion / subterm that carried it
+    history = []               # every assertion body ever asserted, in order
     gone_since_unsat = []      # patched by note_unsat (answers are not known here)
     states = []
     answers_unsat = {}
@@ -62,6 +65,7 @@ def interpret(text):
             if isinstance(t, list) and t and t[0] == "!" and ":named" in t:
                 name, body = t[t.index(":named") + 1], t[1]
             frames[-1]["items"].append((body, name, nested_names(t)))
+            history.append(body)
         elif k == "push":
             for _ in range(int(c[1]) if len(c) > 1 else 1):
                 nid[0] += 1
@@ -74,8 +78,10 @@ def interpret(text):
                         popped_terms.append(body)
                         if name:
                             popped_names.add(name)
-                        for n, _ in nest:
+                            popped_named[name] = body
+                        for n, sub in nest:
                             popped_names.add(n)
+                            popped_named[n] = sub
         elif k in QUERY:
             s = State()
             s.kind, s.idx, s.cmd = k, idx, c
@@ -83,6 +89,8 @@ def interpret(text):
             s.opts = dict(opts)
             s.popped_names = set(popped_names)
             s.popped_terms = list(popped_terms)
+            s.popped_named = dict(popped_named)
+            s.history = list(history)
             s.frame_ids = [f["id"] for f in frames]
             s.unsat_frames_gone = list(gone_since_unsat)
             s.sig = sig
@@ -208,13 +216,66 @@ def judge_sat(sig, logic, decls, A):
 
 
 def equivalent(logic, decls, a, b):
-    """untrusted: z3 says  a <-> b  is valid"""
+    """untrusted: True = z3 says  a <-> b  is valid, False = z3 has a distinguishing model, None = no answer"""
     if sx_str(sc.strip_named(a)) == sx_str(sc.strip_named(b)):
         return True
     def go():
         ans, _ = sc.ref_answer("z3", lg(logic), decls, [["distinct", sc.strip_named(a), sc.strip_named(b)]])
-        return ans == "unsat"
+        return True if ans == "unsat" else False if ans == "sat" else None
     return _memo(("eq", logic, tuple(decls), sx_str(sc.strip_named(a)), sx_str(sc.strip_named(b))), go)
+
+
+def equivalent_to_some(logic, decls, a, others):
+    """True: some element is equivalent; False: z3 distinguishes a from every element; None: undecided"""
+    undecided = False
+    for b in others:
+        e = equivalent(logic, decls, a, b)
+        if e:
+            return True
+        if e is None:
+            undecided = True
+    return None if undecided else False
+
+
+def norm(t):
+    """cheap syntactic normal form (string) approximating opensmt's term identity: names stripped, => expanded, and/or
+    flattened, arguments of commutative operators sorted, duplicates and neutral constants of and/or removed"""
+    t = sc.strip_named(t)
+    if not isinstance(t, list) or not t:
+        return t
+    h = t[0]
+    args = [norm(x) for x in t[1:]]
+    if h == "=>" and len(args) >= 2:
+        return norm(["or"] + [["not", a] for a in t[1:-1]] + [t[-1]])
+    if h == "not" and len(args) == 1:
+        if args[0].startswith("(not ") and args[0].endswith(")"):
+            return args[0][5:-1]
+        return "(not %s)" % args[0]
+    if h in ("and", "or"):
+        flat = []
+        for a, raw in zip(args, t[1:]):
+            raw = sc.strip_named(raw)
+            if isinstance(raw, list) and raw and raw[0] == h:
+                inner = norm(raw)
+                flat += _split_top(inner) if inner.startswith("(" + h + " ") else [inner]
+            else:
+                flat.append(a)
+        neutral = "true" if h == "and" else "false"
+        flat = sorted(set(x for x in flat if x != neutral))
+        if not flat:
+            return neutral
+        if len(flat) == 1:
+            return flat[0]
+        return "(%s %s)" % (h, " ".join(flat))
+    if h in ("=", "distinct", "xor", "+", "*"):
+        args = sorted(args)
+    return "(%s %s)" % (h, " ".join(args))
+
+
+def _split_top(s):
+    """arguments of a printed application (op a1 ... an)"""
+    x = read_all(s)[0]
+    return [sx_str(y) for y in x[1:]]
 
 
 def all_equivalent(logic, decls, pairs):
@@ -343,6 +404,69 @@ def parse_min_trace(trace_text):
     return blocks
 
 
+class CoreBlock:
+    def __init__(self):
+        self.full = self.minimal = None
+        self.ders, self.leaves, self.parts, self.all, self.split, self.complete = [], [], [], None, None, False
+        self.current = None
+
+
+def parse_core_trace(trace_text):
+    """list of CoreBlock, one per UnsatCoreBuilder::buildBody (hook proposed_hooks/C06_core_trace.diff)"""
+    blocks, cur = [], None
+    for line in trace_text.split("\n"):
+        if not line.startswith("(core-"):
+            continue
+        if line.startswith("(core-begin"):
+            m = re.match(r"^\(core-begin ([01]) ([01])\)$", line)
+            cur = CoreBlock()
+            cur.full, cur.minimal = m.group(1) == "1", m.group(2) == "1"
+            blocks.append(cur)
+        elif cur is None:
+            continue
+        elif line.startswith("(core-der"):
+            m = re.match(r"^\(core-der ([0-9]+) ([0-9]+) \(([0-9 ]*)\)\)$", line)
+            cur.ders.append((int(m.group(1)), int(m.group(2)), [int(x) for x in m.group(3).split()]))
+        elif line.startswith("(core-leaf"):
+            m = re.match(r"^\(core-leaf ([0-9]+) \(([0-9 ]*)\)\)$", line)
+            cur.leaves.append((int(m.group(1)), [int(x) for x in m.group(2).split()]))
+        elif line.startswith("(core-part"):
+            m = re.match(r"^\(core-part ([0-9]+) (-?[0-9]+) (.*)\)$", line)
+            cur.parts.append((int(m.group(1)), int(m.group(2)), m.group(3)))
+        elif line.startswith("(core-current"):
+            m = re.match(r"^\(core-current \(([0-9 ]*)\)\)$", line)
+            cur.current = [int(x) for x in m.group(1).split()]
+        elif line.startswith("(core-all"):
+            m = re.match(r"^\(core-all \(([0-9 ]*)\)\)$", line)
+            cur.all = [int(x) for x in m.group(1).split()]
+            cur.complete = cur.full
+        elif line.startswith("(core-split"):
+            m = re.match(r"^\(core-split ([01]) \(([01 ]*)\) \(([0-9 ]*)\) \(([0-9 ]*)\)\)$", line)
+            cur.split = (m.group(1) == "1", [x == "1" for x in m.group(2).split()], [int(x) for x in m.group(3).split()],
+                         [int(x) for x in m.group(4).split()])
+            cur.complete = True
+    return blocks
+
+
+def core_request(b, undef=4294967295):
+    """driver request replaying a traced buildBody on the extracted model"""
+    ders = ";".join("%d:%d:%s" % (c, t, ilist(ps)) for c, t, ps in b.ders)
+    lm = ";".join("%d:%s" % (c, ilist(bits)) for c, bits in b.leaves)
+    parts = ";".join("%d:%d" % (t, i) for t, i, _ in b.parts)
+    if b.full:
+        ne, cont = "0", ""
+    else:
+        ne = "1" if b.split[0] else "0"
+        cont = ";".join("%d:%d" % (t, 1 if c else 0) for t, c in zip(b.all, b.split[1]))
+    return "core %d|%s|%s|%s|%d|%d|%s|%s" % (undef, ders, lm, parts, 1 if b.full else 0, 1 if b.minimal else 0, ne, cont)
+
+
+def parse_core_ok(ans):
+    f = ans[3:].split("|")
+    g = lambda x: [int(y) for y in x.split(",")] if x.strip() else []
+    return g(f[0]), g(f[1]), g(f[2]), g(f[3])
+
+
 _hook = {}
 
 
@@ -358,8 +482,13 @@ def hook_present():
         txt = open(t).read() if os.path.exists(t) else ""
         if os.path.exists(t):
             os.remove(t)
-        _hook[key] = "(min-begin" in txt
-    return _hook[key]
+        _hook[key] = ("(min-begin" in txt, "(core-begin" in txt)
+    return _hook[key][0]
+
+
+def core_hook_present():
+    hook_present()
+    return _hook[vlib.opensmt_bin()][1]
 
 
 # ---------------------------------------------------------------------------------------------
